@@ -33,6 +33,7 @@ def jobs(tier):
         mk('C05', 'child/await/ffG/k0', S.child('await', k=0, child_ff=True), witnesses=W),
         mk('C05', 'timed_child/depth4', _timed_child(), witnesses=W),
         mk('C05', 'small_history_tree/4', S.small_history_tree(4), witnesses=W),
+        mk('C05', 'same_handler_three_levels_with_forward', S.same_handler_three_levels_with_forward(), witnesses=W),
         mk('C05', 'warm_other_bus/AB', S.warm_other_bus_during_await(('A', 'B')), witnesses=W),
         mk('C05', 'warm_other_bus/BA', S.warm_other_bus_during_await(('B', 'A')), witnesses=W),
         mk('C05', 'warm_other_bus/AB/second_loop', S.warm_other_bus_during_await(('A', 'B'), prelude=True), witnesses=W),
